@@ -445,7 +445,10 @@ def present(a, noise, rng, rotate=True):
     b = b[perm]
     if rotate:
         b.rotate(float(rng.uniform(0, 360)), rng.normal(size=3), rotate_cell=True)
-        b.positions += rng.uniform(-5, 5, 3)
+        # rigid translation; sometimes larger than the vacuum, so that a slab leaves the
+        # cell along its non-periodic axis
+        amp = 5.0 if rng.random() < 0.7 else 15.0
+        b.positions += rng.uniform(-amp, amp, 3)
     return b, perm
 
 
@@ -458,8 +461,6 @@ def gen_crystal(rng, maxn=300, noises=(0, 0.02, 0.05), bulk_share=0.25):
     except Exception as e:  # pragma: no cover
         return None, "buildfail:" + type(e).__name__
     miller = MILLERS[int(rng.integers(4))]
-    if st in ("hcp", "wurtzite"):
-        miller = (0, 0, 1)
     layers = int(rng.integers(3, 5))
     pbcz = bool(rng.integers(2))
     noise = float(noises[int(rng.integers(len(noises)))])
